@@ -74,16 +74,21 @@ impl Source for MioListener {
         match *self {
             MioListener::Tcp(ref mut lst) => lst.deregister(registry),
             #[cfg(unix)]
-            MioListener::Uds(ref mut lst) => {
-                let res = lst.deregister(registry);
+            MioListener::Uds(ref mut lst) => lst.deregister(registry),
+        }
+    }
+}
 
-                // cleanup file path
-                if let Ok(addr) = lst.local_addr() {
-                    if let Some(path) = addr.as_pathname() {
-                        let _ = std::fs::remove_file(path);
-                    }
+#[cfg(unix)]
+impl Drop for MioListener {
+    fn drop(&mut self) {
+        // cleanup file path once the listener is gone for good; deregistering is also used to
+        // pause the listener temporarily, after which it must still be reachable by its path
+        if let MioListener::Uds(ref lst) = *self {
+            if let Ok(addr) = lst.local_addr() {
+                if let Some(path) = addr.as_pathname() {
+                    let _ = std::fs::remove_file(path);
                 }
-                res
             }
         }
     }
